@@ -387,6 +387,10 @@ func checkNonNilEdge(c *Ctx, fn *ssa.Function, s errSite, flow map[ssa.Value]boo
 					if bv, ok := constBool(st.Val); ok && bv && len(fn.Params) > 0 && fa.X == fn.Params[0] {
 						latched = true
 					}
+					// an error-typed latch: the error itself (non-nil on this edge) or a fresh one is recorded
+					if len(fn.Params) > 0 && fa.X == fn.Params[0] && isErrorType(st.Val.Type()) && (flow[st.Val] || neverNilError(c, st.Val)) {
+						latched = true
+					}
 				}
 			}
 		}
@@ -480,6 +484,7 @@ func ruleLatch(c *Ctx) *RuleResult {
 	type latch struct {
 		T     *types.Named
 		field int
+		isErr bool // the latch is an error-typed field (set non-nil) instead of a bool (set true)
 	}
 	var latches []latch
 	for _, fn := range allFuncs(c.SLib) {
@@ -504,7 +509,8 @@ func ruleLatch(c *Ctx) *RuleResult {
 				if !ok || fa.X != fn.Params[0] {
 					continue
 				}
-				if bv, ok := constBool(st.Val); ok && bv {
+				isErr := isErrorType(st.Val.Type())
+				if bv, ok := constBool(st.Val); (ok && bv) || isErr {
 					dup := false
 					for _, l := range latches {
 						if l.T == nt && l.field == fa.Field {
@@ -512,8 +518,52 @@ func ruleLatch(c *Ctx) *RuleResult {
 						}
 					}
 					if !dup {
-						latches = append(latches, latch{nt, fa.Field})
+						latches = append(latches, latch{nt, fa.Field, isErr})
 					}
+				}
+			}
+		}
+	}
+	// sticky: a store into the latch inside Less never clears it — the stored
+	// value is the constant true / a value that is non-nil where it is stored
+	for _, fn := range allFuncs(c.SLib) {
+		if fn.Name() != "Less" || fn.Signature.Recv() == nil {
+			continue
+		}
+		n := 0
+		for _, b := range fn.Blocks {
+			for _, in := range b.Instrs {
+				st, ok := in.(*ssa.Store)
+				if !ok {
+					continue
+				}
+				fa, ok := st.Addr.(*ssa.FieldAddr)
+				if !ok || fa.X != fn.Params[0] {
+					continue
+				}
+				var l *latch
+				for i := range latches {
+					if pt, ok := fn.Signature.Recv().Type().(*types.Pointer); ok && pt.Elem() == types.Type(latches[i].T) && latches[i].field == fa.Field {
+						l = &latches[i]
+					}
+				}
+				if l == nil {
+					continue
+				}
+				n++
+				r.Instances++
+				key := fmt.Sprintf("sticky|%s|store#%d", fname(fn), n)
+				okStore := false
+				if bv, ok := constBool(st.Val); ok && bv {
+					okStore = true
+				}
+				if l.isErr && (neverNilError(c, st.Val) || nonNilAt(st.Val, b)) {
+					okStore = true
+				}
+				if okStore {
+					r.ok(key, c.pos(st.Pos()), fname(fn), "the failure latch is only ever set here (never cleared by a later comparison)")
+				} else {
+					r.viol(key, c.pos(st.Pos()), fname(fn), "this store can clear the failure recorded by an earlier comparison (it writes a value that may be false/nil): a failed key evaluation or ill-typed key is forgotten when a later comparison succeeds")
 				}
 			}
 		}
@@ -553,6 +603,7 @@ func ruleLatch(c *Ctx) *RuleResult {
 				pos := c.pos(call.Pos())
 				// find the test of the latch on the sorted object
 				var testBlk *ssa.BasicBlock
+				var latchLoad ssa.Value
 				trueIdx := 0
 				for _, bb := range fn.Blocks {
 					ifi := blockIf(bb)
@@ -564,6 +615,14 @@ func ruleLatch(c *Ctx) *RuleResult {
 					if u, ok := cond.(*ssa.UnOp); ok && u.Op == token.NOT {
 						cond, neg = u.X, true
 					}
+					if bo, ok := cond.(*ssa.BinOp); ok && l.isErr && (bo.Op == token.NEQ || bo.Op == token.EQL) && isNilConst(bo.Y) {
+						cond = bo.X
+						if bo.Op == token.EQL {
+							neg = !neg
+						}
+					} else if l.isErr {
+						continue
+					}
 					ld, ok := cond.(*ssa.UnOp)
 					if !ok || ld.Op != token.MUL {
 						continue
@@ -573,6 +632,8 @@ func ruleLatch(c *Ctx) *RuleResult {
 						continue
 					}
 					testBlk = bb
+					latchLoad = ld
+					trueIdx = 0
 					if neg {
 						trueIdx = 1
 					}
@@ -608,6 +669,9 @@ func ruleLatch(c *Ctx) *RuleResult {
 					errSlot := errIndex(fn.Signature)
 					for bb := range reachableFrom(T, nil) {
 						if ret := blockReturn(bb); ret != nil {
+							if errSlot >= 0 && l.isErr && isLatchValue(retResults(ret)[errSlot], latchLoad, l.field, mi.X) {
+								continue // returns the latched error itself, non-nil on this edge
+							}
 							if errSlot < 0 || !neverNilError(c, retResults(ret)[errSlot]) {
 								problem = "the latched edge reaches the return at " + c.pos(ret.Pos()) + " which does not carry a fresh error"
 							}
@@ -623,4 +687,41 @@ func ruleLatch(c *Ctx) *RuleResult {
 		}
 	}
 	return r
+}
+
+// nonNilAt: v is an error value that is known non-nil in block b (b is
+// dominated by the non-nil edge of a test of v against nil).
+func nonNilAt(v ssa.Value, b *ssa.BasicBlock) bool {
+	for _, bb := range b.Parent().Blocks {
+		ifi := blockIf(bb)
+		if ifi == nil {
+			continue
+		}
+		bo, ok := ifi.Cond.(*ssa.BinOp)
+		if !ok || (bo.Op != token.NEQ && bo.Op != token.EQL) || bo.X != v || !isNilConst(bo.Y) {
+			continue
+		}
+		idx := 0
+		if bo.Op == token.EQL {
+			idx = 1
+		}
+		s := bb.Succs[idx]
+		if len(s.Preds) == 1 && s.Dominates(b) {
+			return true
+		}
+	}
+	return false
+}
+
+// isLatchValue: v is (a reload of) the latch field of the sorted object.
+func isLatchValue(v ssa.Value, latchLoad ssa.Value, field int, obj ssa.Value) bool {
+	if v == latchLoad {
+		return true
+	}
+	if ld, ok := v.(*ssa.UnOp); ok && ld.Op == token.MUL {
+		if fa, ok := ld.X.(*ssa.FieldAddr); ok && fa.Field == field && fa.X == obj {
+			return true
+		}
+	}
+	return false
 }
